@@ -1,9 +1,119 @@
 import JominiModel.Driver.Util
+import JominiModel.Model.Writer
+/-
+ops of property C15 (call-token syntax: harness/src/props/c15.rs):
+  wcalls <indent_char> <indent_factor> <call>…
+    -> `<output hex> <obs after every call> st:<mode>/<depth stack>/<state>/<nlt>/<mixed>`
+-/
 namespace Jomini.Driver.C15
-open Jomini Jomini.Driver
+open Jomini Jomini.Driver Jomini.Writer
 
-/-- ops of property C15 (none yet). -/
+def parseOp : String → Option Op
+  | "lt" => some .lt | "le" => some .le | "gt" => some .gt | "ge" => some .ge
+  | "ne" => some .ne | "exact" => some .exact | "eq" => some .eq | "exists" => some .exists
+  | _ => none
+
+def parseRgb (s : String) : Option Rgb :=
+  match s.splitOn "." with
+  | [r, g, b] => do pure { r := ← r.toNat?, g := ← g.toNat?, b := ← b.toNat?, a := none }
+  | [r, g, b, a] => do pure { r := ← r.toNat?, g := ← g.toNat?, b := ← b.toNat?, a := some (← a.toNat?) }
+  | _ => none
+
+def parseBool : String → Option Bool
+  | "0" => some false | "1" => some true | _ => none
+
+/-- `A<n>` / `O<n>` / `E<n>` -/
+def parseContainerTok (s : String) : Option BinTok :=
+  match s.toList with
+  | 'A' :: rest => (String.ofList rest).toNat?.map fun _ => .array
+  | 'O' :: rest => (String.ofList rest).toNat?.map fun _ => .object
+  | 'E' :: rest => (String.ofList rest).toNat?.map fun _ => .end
+  | _ => none
+
+def parseBinTok : List String → Option BinTok
+  | ["M"] => some .mixedContainer
+  | ["Eq"] => some .equal
+  | ["B", b] => (parseBool b).map .bool
+  | ["U32", n] => n.toNat?.map .u32
+  | ["U64", n] => n.toNat?.map .u64
+  | ["I64", n] => n.toInt?.map .i64
+  | ["I32", n] => n.toInt?.map .i32
+  | ["Q", h] => (parseHex h).map .quoted
+  | ["U", h] => (parseHex h).map .unquoted
+  | ["F32", _, t] => (parseHex t).map .f32
+  | ["F64", _, t] => (parseHex t).map .f64
+  | ["T", n] => n.toNat?.map .token
+  | ["Rgb", c] => (parseRgb c).map .rgb
+  | [c] => parseContainerTok c
+  | _ => none
+
+def parseDateFormat : String → Option DateFormat
+  | "s" => some .dotShort | "w" => some .dotWide | "i" => some .iso8601 | _ => none
+
+def parseCall (s : String) : Option Call :=
+  match s.splitOn ":" with
+  | ["s"] => some .start
+  | ["os"] => some .objectStart
+  | ["as"] => some .arrayStart
+  | ["e"] => some .end
+  | ["mm"] => some .mixedMode
+  | ["u", h] => (parseHex h).map .unquoted
+  | ["q", h] => (parseHex h).map .quoted
+  | ["h", h] => (parseHex h).map .header
+  | ["op", o] => (parseOp o).map .operator
+  | ["b", b] => (parseBool b).map .bool
+  | ["i32", n] => n.toInt?.map .i32
+  | ["u32", n] => n.toNat?.map .u32
+  | ["i", n] => n.toInt?.map .i64
+  | ["n", n] => n.toNat?.map .u64
+  | ["f32", _, t] => (parseHex t).map .fmt
+  | ["f64", _, t] => (parseHex t).map .fmt
+  | ["f32p", _, _, t] => (parseHex t).map .fmt
+  | ["f64p", _, _, t] => (parseHex t).map .fmt
+  | ["d", f, ymdh] =>
+    match ymdh.splitOn "." with
+    | [y, m, d, h] => do
+      pure (.date (← parseDateFormat f) (← y.toInt?) (← m.toNat?) (← d.toNat?) (← h.toNat?))
+    | _ => none
+  | ["rgb", c] => (parseRgb c).map .rgb
+  | "bt" :: rest => (parseBinTok rest).map .binary
+  | _ => none
+
+def b01 (b : Bool) : String := if b then "1" else "0"
+
+def errStr : WErr → String
+  | .stackEmpty => "err:stackempty"
+  | .panic => "panic"
+  | .fuel => "err:fuel"
+
+def obsStr : Except WErr Obs → String
+  | .ok o => s!"{o.depth}/{b01 o.expectingKey}{b01 o.atArrayValue}{b01 o.atUnknownStart}"
+  | .error e => errStr e
+
+def modeChar : DepthMode → Char
+  | .object => 'O' | .array => 'A'
+
+def stateName : WriteState → String
+  | .error => "Error" | .key => "Key" | .objectValue => "ObjectValue"
+  | .keyValueSeparator => "KeyValueSeparator" | .arrayValue => "ArrayValue"
+  | .arrayValueFirst => "ArrayValueFirst" | .firstKey => "FirstKey"
+  | .firstUnknown => "FirstUnknown" | .secondUnknown => "SecondUnknown"
+
+def mixedName : MixedMode → String
+  | .disabled => "Disabled" | .started => "Started" | .keyed => "Keyed"
+
+def stStr (s : State) : String :=
+  let stack := if s.depth.isEmpty then "-" else String.ofList (s.depth.reverse.map modeChar)
+  s!"st:{modeChar s.mode}/{stack}/{stateName s.state}/{b01 s.needsLineTerminator}/{mixedName s.mixedMode}"
+
 def handle : Handler
+  | "wcalls" :: c :: f :: rest => do
+    let ic ← c.toNat?
+    let fac ← f.toNat?
+    let calls ← rest.mapM parseCall
+    let r := run calls (State.init (UInt8.ofNat ic) fac)
+    let obs := r.2.map obsStr
+    pure (String.intercalate " " ([toHex r.1.out] ++ obs ++ [stStr r.1]))
   | _ => none
 
 end Jomini.Driver.C15
